@@ -42,6 +42,13 @@ func e6Sources(c *Ctx, nfiles int) []srcFile {
 	progs = append(progs, genr.Random(genr.Ctl, 60, c.Seed, c.Rep.QuarantinedFeatures())...)
 	progs = append(progs, cases.Scope()...)
 	progs = append(progs, cases.Fx()...)
+	// the directed control-flow / acceptance / delegation / optimiser shapes (what one file gets must not depend on
+	// how many files the optimiser visited before it)
+	for _, p := range append(append(append(cases.Ctl(), cases.Accept()...), cases.Deleg()...), cases.OptGen()...) {
+		if len(p.Imports) == 0 && !p.Isolate {
+			progs = append(progs, p)
+		}
+	}
 	for _, p := range cases.Range() {
 		quarantined := false
 		for _, f := range p.Features {
@@ -199,6 +206,7 @@ type e6Config struct {
 	// (the compiler panics half-way); that file and dropFile are then removed before the real run
 	failFirst string
 	dropFile  string
+	partial   bool // only a subset of the files is compiled: outputs of the others are not expected
 	name      string
 	root      string            // absolute root of the tree
 	files     []srcFile         // files to write (rel = pkg/name)
@@ -206,6 +214,20 @@ type e6Config struct {
 	prefill   map[string]string // files written into dst / dst_tmp before the run
 	first     []srcFile         // a different tree compiled FIRST in the same process
 	env       []string
+}
+
+// subsetOf keeps the files for which keep says so (i counts the generated f-files only)
+func subsetOf(files []srcFile, keep func(i int, f srcFile) bool) (out []srcFile) {
+	i := 0
+	for _, f := range files {
+		if keep(i, f) {
+			out = append(out, f)
+		}
+		if strings.HasPrefix(f.name, "f") {
+			i++
+		}
+	}
+	return
 }
 
 var helperDef = regexp.MustCompile(`^ɪʇ\d+$`)
@@ -294,9 +316,30 @@ func C15(c *Ctx) {
 			"p/external_test.go":  "package p_test\n\nimport \"testing\"\n\nfunc TestExternal(t *testing.T) {}\n"}},
 		// the file that declares the shared constants / variables is processed in the same invocation (it uses the API itself)
 		e6Config{name: "declaring-file-is-processed-too", files: files, extra: map[string]string{"p/shared.go": e6SharedWithGenerator}},
+		// subsets: the files are visited at other POSITIONS of the invocation (first instead of k-th)
 		e6Config{name: "after-a-rejected-run-into-the-same-dst", files: files, dropFile: "p/f00.go",
 			failFirst: "package p\n\nimport . \"github.com/goghcrow/go-co\"\n\nfunc ZZRejected() Iter[int] {\n\tn := 0\nagain:\n\tn++\n\tYield(n)\n\tif n < 2 {\n\t\tgoto again\n\t}\n\treturn nil\n}\n"},
 	)
+	// every generated file ALONE with the plain helper files (it is then the first file the tool visits, not the k-th)
+	nf := 0
+	for _, f := range files {
+		if strings.HasPrefix(f.name, "f") && f.pkg == "p" {
+			nf++
+		}
+	}
+	for k := 0; k < nf; k++ {
+		k := k
+		cfgs = append(cfgs, e6Config{name: fmt.Sprintf("file-f%02d-without-the-other-generated-files", k), partial: true,
+			files: subsetOf(files, func(i int, f srcFile) bool {
+				if f.pkg != "p" {
+					return false
+				}
+				if strings.HasPrefix(f.name, "f") {
+					return i == k
+				}
+				return f.name != "aa_consumer_only.go"
+			})})
+	}
 	// prefill: outputs of a different earlier run (computed below from the "other" tree) are placed into dst and dst_tmp
 
 	type result struct {
@@ -437,6 +480,12 @@ func C15(c *Ctx) {
 	}
 	wg.Wait()
 
+	partialCfg := map[string]bool{}
+	for _, cf := range cfgs {
+		if cf.partial {
+			partialCfg[cf.name] = true
+		}
+	}
 	base := results[0]
 	if base.err != "" {
 		c.Rep.HarnessError("baseline configuration: " + base.err)
@@ -466,6 +515,9 @@ func C15(c *Ctx) {
 			compared++
 			c.Rep.Eval(1)
 			c.Rep.Distinct(r.cfg + "/" + rel)
+			if !ok && partialCfg[r.cfg] {
+				continue
+			}
 			if !ok {
 				c.Rep.Violate(verdict.Violation{Case: "cfg:" + r.cfg + ":" + rel, Sig: "output-missing", What: fmt.Sprintf("configuration %s: no output for %s", r.cfg, rel)})
 				continue
